@@ -5,6 +5,7 @@ patch=$1; id=$2; tier=${3:-quick}
 cd /verif
 if ! git -C /repo diff --quiet; then echo "repo dirty"; exit 9; fi
 cp evidence/$id.json /tmp/evidence_backup_$id.json 2>/dev/null
+trap "git -C /repo checkout -- . ; cp /tmp/evidence_backup_$id.json /verif/evidence/$id.json 2>/dev/null" EXIT TERM INT
 git -C /repo apply "$patch" || { echo "patch does not apply"; exit 8; }
 timeout 3600 python3-vt -m checks.run $id $tier > /tmp/mutcheck_$id.log 2>&1
 rc=$?
